@@ -37,7 +37,7 @@ class Schema:
 
 def gen_schema(rng):
     s = Schema()
-    s.feat = {"nullfield": rng.random() < 0.12, "nulltag": rng.random() < 0.15, "exotic": rng.random() < 0.2,
+    s.feat = {"nullfield": rng.random() < 0.12, "nulltag": rng.random() < 0.2, "exotic": rng.random() < 0.2,
               "strfield": rng.random() < 0.2, "nan": rng.random() < 0.04, "edge": rng.random() < 0.2,
               "short": rng.random() < 0.06, "seriesnull": rng.random() < 0.2}
     s.index_mode = rng.random() < 0.06
@@ -122,17 +122,32 @@ def gen_field_value(rng, t, mode, pnull=0.0, nan=False):
 def gen_dataset(rng, idx):
     s = gen_schema(rng)
     pool = {"s": rng.sample(STR_POOL, rng.choice([2, 3, 4, 6])), "i": rng.sample(INT_POOL, rng.choice([2, 3, 4]))}
+    if s.feat["nulltag"]:
+        # NULL next to the zero values it could be confused with
+        if "" not in pool["s"] and rng.random() < 0.7:
+            pool["s"].append("")
+        if 0 not in pool["i"] and rng.random() < 0.7:
+            pool["i"].append(0)
     # series = entity value tuples
     nser = rng.choice([2, 2, 3]) if s.feat["seriesnull"] else rng.choice([1, 2, 3, 4, 6])
     series = []
     for _ in range(nser):
         ev = {}
         for e in s.entity:
-            v = gen_tag_value(rng, s.tag_type[e], pool, 0.1 if s.feat["nulltag"] else 0.0)
+            v = gen_tag_value(rng, s.tag_type[e], pool, 0.2 if s.feat["nulltag"] else 0.0)
             ev[e] = v
         series.append(ev)
+    s.twin = False
+    str_ent = [e for e in s.entity if s.tag_type[e] == "s"]
+    if s.feat["nulltag"] and str_ent and nser >= 2 and rng.random() < 0.5:
+        # twin series: the same entity except "" vs NULL in one string tag (two series ids, one visible key)
+        e = rng.choice(str_ent)
+        series[0][e] = "S"
+        series[1] = dict(series[0])
+        series[1][e] = "N"
+        s.twin = True
     # non-entity tag values are per point but mostly stable per series
-    pnt = 0.1 if s.feat["nulltag"] else 0.0
+    pnt = 0.25 if s.feat["nulltag"] else 0.0
     stable = [{t: gen_tag_value(rng, s.tag_type[t], pool, pnt) for t in s.tag_type if t not in s.entity} for _ in series]
     span = rng.choice(["tight", "tight", "day", "two"])
     mode = "edge" if s.feat["edge"] else "small"
@@ -646,6 +661,24 @@ def req_features(ds, rq):
         return any(len(p["fields"]) <= i or p["fields"][i] == "N" for b in ds["batches"] for p in b)
     F["field_has_null"] = field_has_null
 
+    def entity_empty_vs_null():
+        """two distinct series whose entity values differ only by an empty string / empty binary vs NULL: they keep
+        different series ids but read back with the same (NULL) values (C12: Unmarshal . Marshal = normalise)"""
+        pos = {}
+        for fi, f in enumerate(ds["families"]):
+            for ti, t in enumerate(f["tags"]):
+                pos[t["n"]] = (fi, ti)
+        raw = set()
+        for b in ds["batches"]:
+            for p in b:
+                raw.add(tuple(p["tags"][pos[e][0]][pos[e][1]] if pos[e][0] < len(p["tags"]) and pos[e][1] < len(p["tags"][pos[e][0]]) else "N"
+                              for e in ds["entity"]))
+        norm = {}
+        for t in raw:
+            norm.setdefault(tuple("N" if v in ("S", "S-", "B", "B-") else v for v in t), set()).add(t)
+        return any(len(v) > 1 for v in norm.values())
+    F["entity_empty_vs_null"] = entity_empty_vs_null
+
     def row_key_collision():
         """the row path hashes the concatenation of the key values (string bytes / 8-byte ints, nothing for NULL) with no
         separator: do two distinct key tuples of this dataset concatenate to the same bytes?"""
@@ -819,6 +852,10 @@ def classify_divergence(ds, rq, row, vec, distributed):
     if distributed and ds.get("indexMode") and not F["has_agg"] and not F["has_gb"] and not F["has_top"] and len(rr) == len(vr) and \
             (sorted(rr) == sorted(vr) or F["offset"] > 0 or len(rr) >= F["limit"]):
         return ("known", "F15n", "index-mode measure: row liaison keeps the node's index order, vectorized liaison sorts by time")
+    if F["gb_entity"] and F["entity_empty_vs_null"]():
+        return ("known", "F15u", "group_by == entity over two series that differ only by \"\" vs NULL entity value (both read back NULL): "
+                "row path keeps one group per series run (standalone) or drops one of them as a replica duplicate (liaison), "
+                "vectorized path merges the equal keys")
     if F["has_top"]:
         f = rq["top"]["field"]
         def is_nan(k):
@@ -1254,7 +1291,7 @@ def smerge_oracle(line, g):
 # the check
 
 KNOWN_IDS = ["F15a", "F15c", "F15c2", "F15d", "F15e", "F15g", "F15h", "F15i", "F15j", "F15m", "F15n",
-             "F15p1", "F15p2", "F15p3", "F15p4", "F15p6", "F15q", "F15r", "F15t", "F15z"]
+             "F15p1", "F15p2", "F15p3", "F15p4", "F15p6", "F15q", "F15r", "F15t", "F15u", "F15z"]
 
 
 class C15(vlib.Spec):
@@ -1313,6 +1350,36 @@ class C15(vlib.Spec):
             for j in range(8):
                 rq = gen_request_valid(rng, s) if rng.random() < 0.8 else gen_request(rng, s)
                 out.append("%s %s %s" % ("par" if j < 6 else "dist", d, jd(rq)))
+            if "nulltag" in ds["feat"]:
+                # NULL group-by keys: every scalar tag alone and the entity, with and without aggregation, standalone and distributed
+                lo, hi = min(s.tss), max(s.tss)
+                numeric = [f["n"] for f in s.fields if f["t"] in ("i", "f")]
+                keysets = [[t] for t, ty in s.tag_type.items() if ty in ("s", "i")]
+                if all(s.tag_type[e] in ("s", "i") for e in s.entity) and len({s.tag_family[e] for e in s.entity}) == 1:
+                    keysets.append(list(s.entity))
+                rng.shuffle(keysets)
+                if s.twin and list(s.entity) in keysets:
+                    keysets.remove(list(s.entity))
+                    keysets.insert(0, list(s.entity))
+                for ks in keysets[:3]:
+                    fam = s.tag_family[ks[0]]
+                    if any(s.tag_family[k] != fam for k in ks):
+                        continue
+                    base = {"tr": [lo - 1000, hi + 1000], "tp": [{"f": fam, "tags": ks}], "gb": [{"f": fam, "tags": ks}]}
+                    for with_agg in (True, False):
+                        rq = dict(base)
+                        if with_agg and numeric:
+                            fld = rng.choice(numeric)
+                            rq["agg"] = {"fn": rng.choice(["SUM", "COUNT", "MIN", "MAX", "MEAN"]), "field": fld}
+                            rq["fp"] = [fld]
+                        elif numeric:
+                            rq["fp"] = [numeric[0]]
+                        r = rng.random()
+                        if r < 0.3:
+                            rq["limit"], rq["offset"] = rng.choice([1, 2, 3]), rng.choice([0, 1, 2])
+                        elif r < 0.5:
+                            rq["ob"] = {"rule": "", "sort": rng.choice(["asc", "desc"])}
+                        out.append("%s %s %s" % (rng.choice(["par", "par", "dist"]), d, jd(rq)))
             if "seriesnull" in ds["feat"]:
                 # a node whose rows all lack one field/tag sends that column with another wire type than its peers:
                 # plain distributed projections of every field exercise the liaison's schema union in both arrival orders
